@@ -1,7 +1,6 @@
 package jsonldinternal
 
 import (
-	"fmt"
 	"strings"
 
 	"github.com/dpb587/inspectjson-go/inspectjson"
@@ -170,7 +169,7 @@ func (opts algorithmIRIExpansion) Call() (ExpandedIRI, error) {
 					return t + ExpandedIRIasBlankNode(valuePrefixSuffix[1]), nil
 				}
 
-				panic(fmt.Errorf("unexpected term definition IRI type: %T", termDefinition.IRI))
+				// any other kind of IRI mapping (such as a keyword alias) cannot act as a prefix
 			}
 
 			// [spec // 5.2.2 // 6.5] If value has the form of an IRI, return value.
